@@ -233,3 +233,63 @@ def model_stream(tier, wd, seed=1):
 
 
 MODELS.update({"nodeid": model_nodeid, "key": model_key, "text": model_text, "typed": model_typed, "stream": model_stream})
+
+
+# ------------------------------------------------------------------------------------------ MC_Build
+BUILD_CFG = """SPECIFICATION Spec
+CONSTANTS
+  MaxCalls = %(n)d
+  KT = "%(kt)s"
+  Emit = %(emit)s
+  Dev = "%(dev)s"
+INVARIANTS BuildProps Commute
+ACTION_CONSTRAINT EmitB
+CHECK_DEADLOCK FALSE
+"""
+
+
+def model_build(kt, n, limit, seed, wd, dev="none", emit=True):
+    cfg = write_cfg("MC_Build_%s_%d_%s.cfg" % (kt, n, dev), BUILD_CFG % {"n": n, "kt": kt, "emit": "TRUE" if emit else "FALSE", "dev": dev})
+    res = run.tlc_model(cfg, "MC_Build.tla", os.path.join(wd, "mc_build_%s_%d" % (kt, n)), workers=8, capture_prefixes=("B ",))
+    stats = {"name": "MC_Build[%s,%d]" % (kt, n), "states": res["states"], "transitions": res["transitions"], "ok": res["ok"],
+             "wall_s": round(res["wall_s"], 1), "constants": {"MaxCalls": n, "KT": kt, "Dev": dev},
+             "tail": "\n".join(res["out"].splitlines()[-25:]) if not res["ok"] else ""}
+    uniq = list(dict.fromkeys(l[2:] for l in res["captured"]))
+    stats["sequences_emitted"] = len(uniq)
+    uniq = pick(uniq, limit, seed) if emit else []
+    stats["sequences_replayed"] = len(uniq)
+    own = "k1" if kt == "k256" else "e1"
+    kts = ["k256", "libsecp", "comb"] if kt == "k256" else ["ed", "comb"]
+    steps = []
+    for n_, body in enumerate(uniq):
+        t = json.loads(body)
+        k = kts[n_ % len(kts)]
+        steps.append({"op": "build", "h": "b", "kt": k, "signer": own, "calls": t["calls"], "obs": "full" if n_ % 5 == 0 else "core",
+                      "rebuild": n_ % 4 == 1, "calls2": []})
+    scripts = [{"sid": "mcb-%s-%d" % (kt, i), "steps": steps[i:i + 400]} for i in range(0, len(steps), 400)]
+    return {"stats": stats, "scripts": scripts}
+
+
+MODELS.update({
+    "build_k256": lambda tier, wd, seed=1: model_build("k256", 3, Q(tier, 1500, 18278), seed, wd),
+    "build_ed": lambda tier, wd, seed=1: model_build("ed", Q(tier, 2, 3), Q(tier, 703, 18278), seed, wd),
+})
+
+
+# ------------------------------------------------------------------------------------------ simulation of long behaviours
+def model_hist_sim(tier, wd, seed=1):
+    """random behaviours of MC_Hist far beyond the exhaustive depth (TLC -simulate), invariants and action properties on every step"""
+    depth, num = (12, 400) if tier == "quick" else (25, 6000)
+    cfg = write_cfg("MC_Hist_sim.cfg", HIST_CFG % {"depth": depth, "kt": "comb_ed", "dev": "none", "emit": "FALSE"})
+    res = run.tlc_model(cfg, "MC_Hist.tla", os.path.join(wd, "mc_hist_sim"), workers=8, timeout=3600,
+                        extra_args=["-simulate", "num=%d" % num, "-depth", str(depth + 2), "-seed", str(seed)])
+    ok = res["rc"] == 0 and "Error" not in res["out"]
+    import re
+    m = re.search(r"(\d+) states checked", res["out"].replace(",", ""))
+    n = int(m.group(1)) if m else num * depth
+    stats = {"name": "MC_Hist[comb_ed] simulation", "states": n, "transitions": n, "ok": ok, "wall_s": round(res["wall_s"], 1),
+             "constants": {"MaxDepth": depth, "behaviours": num}, "tail": "\n".join(res["out"].splitlines()[-25:]) if not ok else ""}
+    return {"stats": stats, "scripts": []}
+
+
+MODELS.update({"hist_sim": model_hist_sim})
